@@ -2,7 +2,7 @@
 array-level transcriptions of the QC tests are written in is run on the same random cells (raw data AND mask bit) in numpy
 and in Lean; data (NaN-aware) and mask are compared exactly.  A disagreement means the model of numpy.ma no longer describes
 the numpy the code runs on — reported as a broken correspondence of the properties whose theorems go through that model
-(C03, C09, C10)."""
+(C03, C09, C10, C13, C14)."""
 from __future__ import annotations
 
 from fractions import Fraction as F
@@ -54,7 +54,9 @@ def one(rng):
     A, B = to_ma(a), to_ma(b)
     r = F(rng.randint(-6, 6), rng.choice([1, 2]))
     op = rng.choice(["add", "sub", "mul", "divS", "divArr", "abs", "minimum", "diff", "masked_invalid", "set_inner_zeros", "set_tail_zeros",
-                     "gt", "lt", "ge", "or", "set_where_b", "set_where", "set_zero_where_b", "set_first_last", "of_input"])
+                     "gt", "lt", "ge", "or", "set_where_b", "set_where", "set_zero_where_b", "set_first_last", "of_input",
+                     "sign", "le", "eq_true", "any", "view_init_set", "view_tail_set", "view_tail_set_bools", "set_at0", "mask_or",
+                     "mask_and_xor", "filled", "of_input_junk", "pdiff", "mean_sign", "mul_s", "where_le_plus1", "set_idx", "great_circle"])
     req = {"kind": "np", "op": op, "a": wire_cells(a), "b": wire_cells(b), "r": enc(r)}
     with np.errstate(all="ignore"):
         if op == "add":
@@ -88,15 +90,98 @@ def one(rng):
             z = np.ma.zeros(n + 1, dtype="float")
             z[1:] = A
             return req, canon_ma(z)
-        if op in ("gt", "lt", "ge"):
-            res = {"gt": A > float(r), "lt": A < float(r), "ge": A >= float(r)}[op]
+        if op in ("gt", "lt", "ge", "le"):
+            res = {"gt": A > float(r), "lt": A < float(r), "ge": A >= float(r), "le": A <= float(r)}[op]
             return req, canon_b(res)
+        if op == "sign":
+            return req, canon_ma(np.sign(A))
+        if op == "mask_or":
+            return req, [bool(x) for x in (np.ma.getmaskarray(A) | np.ma.getmaskarray(B)).tolist()]
+        if op == "mask_and_xor":
+            ma, mb = np.ma.getmaskarray(A), np.ma.getmaskarray(B)
+            return req, [[bool(x) for x in (ma & mb).tolist()], [bool(x) for x in (ma != mb).tolist()]]
+        if op in ("pdiff", "mean_sign", "mul_s", "where_le_plus1"):
+            P = np.asarray(np.ma.getdata(A), dtype="float64")            # a PLAIN array: the raw data, NaN included
+            if op == "pdiff":
+                return req, [None if v != v else enc(F(float(v))) for v in np.diff(P).tolist()]
+            if op == "mean_sign":
+                import warnings
+                with warnings.catch_warnings():
+                    warnings.simplefilter("ignore")
+                    v = float(np.sign(np.mean(P)))                       # dyadic data: the sum is exact, so the sign is
+                return req, None if v != v else enc(F(v))
+            if op == "mul_s":
+                sc = rng.choice([-1.0, 1.0, 0.0, float("nan")])
+                req["s"] = None if sc != sc else enc(F(sc))
+                return req, [None if v != v else enc(F(float(v))) for v in (np.float64(sc) * P).tolist()]
+            return req, [int(i) for i in (np.where(P <= float(r))[0] + 1).tolist()]
+        if op in ("filled", "of_input_junk"):
+            v = [None if rng.random() < 0.3 else F(rng.randint(-9, 9), rng.choice([1, 2])) for _ in range(n)]
+            req["v"] = enc(v)
+            carrier = rng.choice(["none_list", "nan_array", "masked_junk"])
+            junk = [None] * n
+            if carrier == "none_list":
+                inp = np.array([np.nan if x is None else float(x) for x in v], dtype="float64") if op == "of_input_junk" else [None if x is None else float(x) for x in v]
+            elif carrier == "nan_array":
+                inp = np.array([np.nan if x is None else float(x) for x in v], dtype="float64")
+            else:
+                junk = [None if x is not None else F(rng.randint(-40, 40), 4) for x in v]
+                inp = np.ma.array([float(j) if x is None else float(x) for x, j in zip(v, junk)], mask=[x is None for x in v], dtype="float64")
+            if op == "filled":
+                got = np.ma.filled(np.ma.masked_invalid(np.ma.array(inp).astype(np.float64)), np.nan)
+                return req, [None if x != x else enc(F(float(x))) for x in np.asarray(got, dtype="float64").reshape(-1).tolist()]
+            req["junk"] = enc(junk)
+            return req, canon_ma(np.ma.masked_invalid(np.ma.array(inp, dtype=np.float64))) if n else []
+        if op == "great_circle":
+            from ioos_qc.utils import great_circle_distance
+            n1 = max(n, 2)          # a single position is never handed to great_circle_distance (np.vectorize rejects size-0 inputs)
+            lat = [None if rng.random() < 0.25 else F(rng.randint(-60, 60), 2) for _ in range(n1)]
+            lon = [None if rng.random() < 0.25 else F(rng.randint(-170, 170), 2) for _ in range(n1)]
+            norm = lambda xs: np.ma.masked_invalid(np.ma.array([None if x is None else float(x) for x in xs]).astype(np.float64).filled(np.nan))  # noqa: E731
+            import warnings
+            with warnings.catch_warnings():
+                warnings.simplefilter("ignore")
+                d = great_circle_distance(norm(lat), norm(lon))
+            dd = np.asarray(np.ma.getdata(d), dtype="float64")
+            hops = [None if dd[i + 1] != dd[i + 1] else F(float(dd[i + 1])) for i in range(n1 - 1)]
+            req["hops"], req["n"] = enc(hops), n1
+            return req, canon_ma(d)
         c1 = [(rng.random() < 0.5, rng.random() < 0.3) for _ in range(n)]
         c2 = [(rng.random() < 0.5, rng.random() < 0.3) for _ in range(n)]
         flags = [rng.choice([1, 2, 3, 4, 9]) for _ in range(n)]
         req.update({"c1": [[bool(d), bool(m)] for d, m in c1], "c2": [[bool(d), bool(m)] for d, m in c2], "flags": flags})
         if op == "or":
             return req, canon_b(to_b(c1) | to_b(c2))
+        if op == "eq_true":
+            return req, canon_b(to_b(c1) == True) if n else []  # noqa: E712
+        if op == "any":
+            return req, bool(any(to_b(c1)))
+        if op in ("view_init_set", "view_tail_set", "view_tail_set_bools"):
+            flags1 = flags + [rng.choice([1, 2, 3, 4, 9])]
+            req["flags1"] = flags1
+            f = 1 * np.ma.array(flags1, dtype="uint8")
+            if op == "view_init_set":
+                f[:-1][to_b(c1) == True] = 4  # noqa: E712
+                req["c1"] = canon_b(to_b(c1) == True) if n else []  # noqa: E712
+            elif op == "view_tail_set":
+                f[1:][to_b(c1) == True] = 4  # noqa: E712
+                req["c1"] = canon_b(to_b(c1) == True) if n else []  # noqa: E712
+            else:
+                f[1:][np.ma.getmaskarray(A)] = 9
+            return req, [int(v) for v in np.ma.getdata(f).tolist()]
+        if op == "set_at0":
+            f = 1 * np.ma.array(flags, dtype="uint8")
+            try:
+                f[0] = 2
+            except IndexError:
+                return req, "IndexError"
+            return req, [int(v) for v in np.ma.getdata(f).tolist()]
+        if op == "set_idx":
+            idx = sorted({rng.randrange(n) for _ in range(rng.randint(0, n))}) if n else []
+            req["idx"] = idx
+            f = np.array(flags, dtype="uint8")
+            f[np.array(idx, dtype=int)] = 3
+            return req, [int(v) for v in f.tolist()]
         if op == "set_where_b":
             f = np.ma.array(flags, dtype="uint8")
             if n:
